@@ -763,10 +763,20 @@ def _succ(ops, r_i, i):
 def degenerate_branch_in_loop(case) -> bool:
     """Known finding F-C02-9: a conditional branch (Branch* or Case* op) whose target is the op it falls through to
     anyway, lying on a cycle (the loop builder mishandles the two parallel edges)."""
+    def through_jumps(ops, r_i, k):
+        # the minimizer removes Jump vertices, so "falls through to a Jump to X" is the same edge as "goes to X"
+        hops = 0
+        while 0 <= k < len(ops) and ops[k][0] == "Jump" and ops[k][2] is not None and ops[k][2][0] == r_i and hops < len(ops) \
+                and not (k > 0 and ops[k - 1][0] in T.OPS_CTX):
+            k = ops[k][2][1]
+            hops += 1
+        return k
+
     for r_i, r in enumerate(case["routines"]):
         ops = r["ops"]
         for i, op in enumerate(ops):
-            if (op[0] in T.OPS_BRANCH or op[0] in T.OPS_CASE) and op[2] == [r_i, i + 1]:
+            if (op[0] in T.OPS_BRANCH or op[0] in T.OPS_CASE) and op[2] is not None and op[2][0] == r_i and i + 1 < len(ops) \
+                    and through_jumps(ops, r_i, op[2][1]) == through_jumps(ops, r_i, i + 1):
                 seen, stack = set(), [i + 1]
                 while stack:
                     k = stack.pop()
